@@ -63,7 +63,10 @@ def g711_kernels(ctx, prog):
                             break
                 rs = f.s(f.unwrap(r)).replace(' ', '')
                 masked = rs.startswith('(127&') or rs.endswith('&127)')
+                if neg is None and f.unwrap(r).get('v') is not None:
+                    continue        # a constant code stored for a non-finite input: no sign to carry
                 if neg is None:
+                    ctx.ob('G711-KERNEL', '%s:sign#%d' % (name, k_), False, f.loc(a), 'store into the code buffer is not under a `sample >= 0` / `== INT_MIN` branch structure the rule understands (the G.711 zero code is a POSITIVE code: the test must be `>= 0`)', None)
                     continue
                 ctx.ob('G711-KERNEL', '%s:sign#%d' % (name, k_), masked == neg, f.loc(a), 'store for a %s input is %s' % ('negative' if neg else 'non-negative', 'masked with 0x7F' if masked else 'not masked') +
                        ('' if masked == neg else ': the sign bit of the code is wrong — the sample is written with the opposite sign'), None)
@@ -161,4 +164,33 @@ def run(ctx):
     subs = [n for n in d.walk() if n['k'] == 'ArraySubscriptExpr' and d.s(d.N[n['kids'][0]]) in ('AdaptCoeff1', 'AdaptCoeff2')]
     badi = [n for n in subs if not d.s(d.unwrap(d.N[n['kids'][1]])).startswith('bpred')]
     ctx.ob('BPRED-RANGE', 'msadpcm_decode_block:index', bool(subs) and not badi, d.loc(badi[0]) if badi else d.loc(d.body), '%d subscripts of AdaptCoeff1/2, %s' % (len(subs), 'all indexed by bpred []' if not badi else 'one indexed by something else'), None)
+
+    ctx.rule('STEP-WIDTH', 'in the IMA ADPCM coders every variable that accumulates shifted copies of the step (vpdiff / diff = step >> 3 ; += step >> k ...) is at least 32 bits wide: the sum reaches '
+             '61438 for the largest step, a 16-bit variable wraps negative and the predictor jumps the wrong way', floor=4)
+    from engine.model import int_type as _it
+    from engine.util import assigned_lvalues as _al3
+    nsw = 0
+    for fn_ in sorted(prog.lib_fns(), key=lambda f: (f.file, f.line)):
+        if fn_.file.split('/')[-1] not in ('ima_adpcm.c', 'ima_oki_adpcm.c', 'vox_adpcm.c'):
+            continue
+        locs_ = {}
+        for x in fn_.walk():
+            if x['k'] == 'DeclStmt':
+                for v in x.get('decls', []):
+                    locs_[v['n']] = v['t']
+        stepvars = {lv for lv, a, r in _al3(fn_) if r is not None and any(y['k'] == 'ArraySubscriptExpr' and fn_.s(fn_.N[y['kids'][0]]) in ('ima_step_size', 'ima_steps', 'oki_steps', 'steps') for y in fn_.walk(r))}
+        if not stepvars:
+            continue
+        acc = set()
+        for lv, a, r in _al3(fn_):
+            if r is None or lv not in locs_ or lv in stepvars:
+                continue
+            if any(y['k'] == 'BinaryOperator' and y.get('op') == '>>' and fn_.s(fn_.unwrap(fn_.N[y['kids'][0]])) in stepvars for y in fn_.walk(r)):
+                acc.add(lv)
+        for v in sorted(acc):
+            it_ = _it(locs_[v])
+            nsw += 1
+            ok = bool(it_) and it_[0] >= 32
+            ctx.ob('STEP-WIDTH', '%s:%s' % (fn_.name, v), ok, fn_.loc(fn_.body), 'accumulator `%s` of step shifts has type %s%s' % (v, locs_[v], '' if ok else ' — too narrow for step + step/2 + step/4 + step/8 (up to 61438)'), None)
+    ctx.require(nsw >= 4, 'only %d step accumulators found in the IMA coders' % nsw)
 
